@@ -75,6 +75,7 @@ def features(p):
         else:
             t = o["target"]
             f.add("update:%s:%s:%s%s" % (o["ret"], "open" if prev_open else "closed",
+                                          "initfail" if t["pre"] == "armbad" else
                                           "samepre" if t["pre"] == p["chain"]["pre"] else "otherpre", ":" + t["props"]))
     return f
 
@@ -94,15 +95,23 @@ def choose_sizes(p, rng, grant):
         u = max(u, 16)        # TinyInput = FALSE in GenXzStreamEnc: every piece is longer than the BCJ look-ahead
     return max(u, 1)
 
-def make_history(p, rng, grant=None):
+def make_history(p, rng, grant=None, long=False):
     grant = grant or rng.choice(["one", "some", "big", "big"])
     u = choose_sizes(p, rng, grant)
+    if long:
+        # streaming profile: many small writes (a write after a completed flush is much shorter than the encoder's
+        # look-ahead), data whose matches reach back across the flush points
+        u = rng.choice([1, 2, 5, 13, 20])
     ops = [dict(k="op", a=o["a"], n=o["n"]) if o["k"] == "op" else dict(k="update", target=o["target"])
            for o in p["ops"]]
     # the application always finishes the stream with some more input: "the whole stream still decodes to the whole
     # input".  Its outcome is decided by the contract (4): STREAM_END unless an earlier call was refused fatally.
     ops.append(dict(k="op", a="FINISH", n=1, extra=True))
-    return dict(enc=p["enc"], chain=p["chain"], check=p["check"], grant=grant, bsize=p["bsize"], unit=u, ops=ops)
+    h = dict(enc=p["enc"], chain=p["chain"], check=p["check"], grant=grant, bsize=p["bsize"], unit=u, ops=ops)
+    if long:
+        h["data"] = rng.choice(["repetitive", "repetitive", "repetitive", "mixed"])
+        h["probe"] = False
+    return h
 
 def observed(h, res):
     """The same shape as prediction(), from a real run."""
@@ -221,6 +230,7 @@ class Worker:
         if self.p is None or self.p.poll() is not None:
             self.start()
         try:
+            self.errf.seek(0); self.errf.truncate()      # keep only what the current history prints
             self.p.stdin.write(json.dumps(dict(hist=hist, seed=seed)) + "\n"); self.p.stdin.flush()
             r, _, _ = select.select([self.p.stdout], [], [], 180)
             if not r:
@@ -251,7 +261,7 @@ def crash_key(h, err):
     m = re.search(r"Assertion `([^']*)' failed", err)
     if m:
         return "crash:assert:%s" % re.sub(r"[^A-Za-z0-9_>.=!<-]+", "_", m.group(1))[:60]
-    m = re.search(r"ERROR: AddressSanitizer: ([a-z-]+)", err)
+    m = re.search(r"ERROR: AddressSanitizer: ([A-Za-z-]+)", err)
     if m:
         return "crash:asan:%s:%s" % (m.group(1), h["enc"])
     m = re.search(r"runtime error: ([a-z ]+)", err)
@@ -259,7 +269,7 @@ def crash_key(h, err):
         return "crash:ubsan:%s" % m.group(1).strip().replace(" ", "_")[:40]
     return "crash:signal:%s" % h["enc"]
 
-def run_replays(ctx, so, plans, label, want_traces, ev_budget, nworkers=3):
+def run_replays(ctx, so, plans, label, want_traces, ev_budget, nworkers=3, long=False):
     """plans: list of (plan, preds).  Returns list of (label, events) chosen for trace validation."""
     traces = []
     seen = set()
@@ -267,7 +277,7 @@ def run_replays(ctx, so, plans, label, want_traces, ev_budget, nworkers=3):
     t0 = time.time()
     jobs = []
     for n, (p, preds) in enumerate(plans):
-        jobs.append((n, p, preds, make_history(p, ctx.rng), ctx.rng.getrandbits(48)))
+        jobs.append((n, p, preds, make_history(p, ctx.rng, long=long), ctx.rng.getrandbits(48)))
     lock = threading.Lock()
     def work(wi):
         w = Worker(so); w.workdir = ctx.workdir
@@ -519,14 +529,16 @@ def run(ctx):
     mc_jobs = [(cfg, mcpool.submit(tlc.run, mod, cfg=cfg, workers=w, timeout=240 if quick else 1400, coverage=False))
                for mod, cfg, w in (QUICK_MC if quick else THOROUGH_MC)]
     # non-vacuity of the contract: deliberately wrong variants of the model (Bugs constant) must violate it
-    bug_names = ["bcj_accepts_sync", "no_state_reset_after_uncompressed"] if quick else \
+    bug_names = ["bcj_accepts_sync", "update_keeps_block_initialized"] if quick else \
         ["bcj_accepts_sync", "no_state_reset_after_uncompressed", "empty_block_on_full_flush", "update_mid_chunk",
          "stream_update_mid_block", "lzma2_init_ignores_unencoded", "block_sync_is_finish", "mt_update_mid_block",
-         "lzma1_accepts_sync"]
+         "lzma1_accepts_sync", "update_keeps_block_initialized"]
     bug_jobs = [(b, pool.submit(tlc.run, "MCXzStreamEnc", cfg="MCXzStreamEncBug_%s.cfg" % b, workers=1, timeout=600))
                 for b in bug_names]
     # (G)
     gen_bfs = pool.submit(tlc.run, "GenXzStreamEnc", cfg="GenXzStreamEncQ.cfg" if quick else "GenXzStreamEnc.cfg", workers=3, timeout=900)
+    gen_long = pool.submit(tlc.run, "GenXzStreamEnc", cfg="GenXzStreamEncLong.cfg", workers=1, timeout=300,
+                           simulate=40 if quick else 400, depth=2000, seed=ctx.seed + 7)
     gen_sim = pool.submit(tlc.run, "GenXzStreamEnc", cfg="GenXzStreamEncSim.cfg", workers=1, timeout=300,
                           simulate=150 if quick else 1500, depth=260, seed=ctx.seed)
     # CLI plans meanwhile
@@ -583,6 +595,16 @@ def run(ctx):
                          nworkers=3 if quick else 4)
     traces += run_replays(ctx, L["so"], chosen_sim, "simulated histories <= 8 operations", 40 if quick else 300, 8000 if quick else 50000,
                           nworkers=3 if quick else 4)
+    gl = gen_long.result()
+    ctx.add_tlc("GenXzStreamEnc(simulate, streaming profile)", gl)
+    lng = collect_plans([gl.out])
+    lk = sorted(lng)
+    ctx.rng.shuffle(lk)
+    if len(lk) < 40:
+        raise MachineryError("streaming profile generation produced only %d histories" % len(lk))
+    traces += run_replays(ctx, L["so"], [lng[k] for k in lk[:(100 if quick else 1000)]],
+                          "streaming histories of 60 operations", 5 if quick else 40, 3000 if quick else 24000,
+                          nworkers=3 if quick else 4, long=True)
     traces += cli_traces
     # (V)
     rej = tracev.validate(ctx, "TraceXzStreamEnc", traces, trace_key, maxl=True, timeout=600 if quick else 1500)
